@@ -118,16 +118,13 @@ func init() {
 	handlers["shellsession"] = handleShellSession
 	props["X01"] = func(rc *RunCtx) int {
 		rep := NewReport("X01", rc.Tier, rc.Seed, "model_checking")
-		rep.Rule = "ShellSession spec (beyond the listed properties): TLC checks StackShape, NoStuck, ResetOnSubmit on every state and FailedKeepsScope / UnsetRemoves on every step; every behaviour is replayed line by line through the shell's own parseCmd (hook pkg/shell/verif_on.go) and the collected lines, the open-delimiter depth, the bound names and their values and error / no error are compared after every line. Pools: every line of 1..3 characters over a 12-character delimiter alphabet (quick: one line; thorough: sampled three-line sessions), and sessions of up to 4 lines over /set, /unset, unknown and malformed commands, expressions, blank lines and a two-line /set."
+		rep.Rule = "ShellSession spec (beyond the listed properties): TLC checks StackShape, NoStuck, ResetOnSubmit on every state and FailedKeepsScope / UnsetRemoves on every step; every behaviour is replayed line by line through the shell's own parseCmd (hook pkg/shell/verif_on.go) and the collected lines, the open-delimiter depth, the bound names and their values and error / no error are compared after every line. Pools: every line of 1..3 characters over a 12-character delimiter alphabet (one line), and sessions of up to 4 lines over /set, /unset, unknown and malformed commands, expressions, blank lines and a two-line /set."
 		seen := map[string]bool{}
 		dedup := func(c []byte, o *Obs) {
 			rep.Add(c, o)
 		}
 		_ = seen
 		runs := []*TLCRun{{Module: "ShellSession", Cfg: "ShellSession_delims.cfg"}, {Module: "ShellSession", Cfg: "ShellSession_session.cfg"}}
-		if rc.Tier == "thorough" {
-			runs = append(runs, &TLCRun{Module: "ShellSession", Cfg: "ShellSession_delims2.cfg", Simulate: "num=60000", Depth: 5, Seed: rc.Seed, Workers: 1})
-		}
 		for _, r := range runs {
 			r.Timeout = 30 * 60e9
 		}
